@@ -46,7 +46,10 @@ def run(tier, seed):
         progs.append(("%s::a(X); %s::b(X) :- d(X). d(1). d(2). query(a(1)). query(b(1))." % ps, ok))
     for ps in itertools.product(["0.3", "0.4", "0.5"], repeat=3):
         s = sum(float(x) for x in ps)
-        progs.append(("%s::a; %s::b; %s::c. query(a). query(c)." % ps, s <= 1.0 + 1e-9))
+        progs.append(("%s::a; %s::b; %s::c. query(a). query(b). query(c)." % ps, s <= 1.0 + 1e-9))
+        progs.append(("%s::a; %s::b; %s::c. q :- a. q :- b. q :- c. query(q)." % ps, s <= 1.0 + 1e-9))
+        # head b never reaches the ground program: the same "partial" class
+        progs.append(("%s::a; %s::b; %s::c. query(a). query(c)." % ps, s <= 1.0 + 1e-9, "partial"))
     for entry in progs:
         src, valid = entry[0], entry[1]
         klass = entry[2] if len(entry) > 2 else None
